@@ -378,7 +378,10 @@ class Lexer:
     def match_text(self):
         match = self.match(
             r"""
-                (.*?)         # anything, followed by:
+                ((?=\\\r?\n)|.+?)  # at least one character - every directive
+                                   # matcher has declined it, so it is text -
+                                   # unless an escaped newline begins right
+                                   # here; followed by:
                 (
                  (?<=\n)(?=[ \t]*(?=%|\#\#))  # an eval or line-based
                                             # comment, preceded by a
